@@ -105,7 +105,7 @@ T = {
  "C05-r2m1": ("C05", "scalar_type_extension no longer requires directives", "`extend scalar Date` with nothing after the name", ""),
  "C05-r2m2": ("C05", "interface_type_extension parses directives before implements", "interface extension with both an implements list and directives", ""),
  "C08-r2m1": ("C08", "can_be_block_string counts only spaces (not tabs) as common indentation", "multi-line description whose every non-blank line starts with a tab", ""),
- "C08-r2m2": ("C08", "\\uXXXX escape of control characters formatted in decimal", "quoted string containing U+000B or U+000E..U+001F", ""),
+ "C08-r2m2": ("C08", "\\uXXXX escape of control characters formatted in decimal", "quoted string containing U+000B or U+000E..U+001F", "C09 alphabet: U+001F (C09 reports it; C08 keeps two string representatives)"),
  "C11-r2m1": ("C11", "Name::location returns None when start_offset == 0", "a parsed name at byte offset 0 of its file (standalone Type::parse / FieldSet::parse)", "C11 standalone part (added before this seed was evaluated)"),
  "C11-r2m2": ("C11", "get_line_column_range fast path computes the end column from the byte length", "a located text without line terminator that contains a multi-byte character, range end inspected", "C11 line/column ranges of every node (added before this seed was evaluated)"),
  "C18-r2m1": ("C18", "Schema::type_field returns __typename for scalar, enum and input object types too", "fragment with a scalar / enum / input type condition selecting __typename", ""),
@@ -122,6 +122,10 @@ T = {
  "C30-r2m2": ("C30", "Hash for Node<T> hashes the header (location) too", "two equal nodes that differ only in location, hashed", ""),
  "C20-r2m1": ("C20", "validate_directives: unknown directives count as non-repeatable without a schema", "a directive the schema declares repeatable, applied twice on one node", ""),
  "C20-r2m2": ("C20", "schema-less build of a field omits its directives", "a variable whose only uses are in directives applied to fields", ""),
+ "C06-r2m1": ("C06", "unescape_block_string keeps a trailing whitespace-only line that is longer than the common indent", "multi-line block string whose trailing whitespace-only line is longer than the common indent", ""),
+ "C06-r2m2": ("C06", "from_cst fast path copies the text of a block string value without backslash / line terminator", "a one-line block string *value* (not a description) made of spaces or tabs only", ""),
+ "C19-r2m1": ("C19", "InlineFragment::to_ast always writes a type condition (the parent type)", "an inline fragment without a type condition", ""),
+ "C19-r2m2": ("C19", "serialize_string_value escape search uses is_control() (matches two-byte C1 controls) and slices one byte", "a string value containing U+0080..U+009F", ""),
  "C33-m2": ("C33", "collect_fields: a fragment spread's fields replace nothing but are not merged into an already collected key", "same composite response key twice, the later occurrence from a named fragment with an extra sub-field", ""),
 }
 
